@@ -115,7 +115,7 @@ pub(crate) mod verif_h6e {
 
     /// H7': the modes byte written for (ll, of, ml) decodes to the same three modes
     #[cfg_attr(kani, kani::proof)]
-    #[cfg_attr(kani, kani::unwind(258))]
+    #[cfg_attr(kani, kani::unwind(4))]
     #[cfg_attr(killingspark_zstd_rs_verif, no_mangle)]
     pub fn h7_modes_roundtrip() {
         use crate::fse::fse_encoder::verif_fse_dummy::dummy;
@@ -155,9 +155,11 @@ pub(crate) mod verif_h6e {
 #[allow(dead_code, unreachable_pub)]
 pub(crate) mod verif_fse_dummy {
     use super::*;
-    /// an empty encoder table (no states) for harnesses that only need a value of the type
+    /// an empty encoder table (no states) for harnesses that only need a value of the type; built from a const so that no
+    /// 256-iteration initialisation loop enters the proofs
+    const EMPTY_STATES: SymbolStates = SymbolStates { states: Vec::new(), probability: 0 };
     pub(crate) fn dummy() -> FSETable {
-        FSETable { states: core::array::from_fn(|_| SymbolStates { states: Vec::new(), probability: 0 }), table_size: 0 }
+        FSETable { states: [EMPTY_STATES; 256], table_size: 0 }
     }
 }
 //@end
